@@ -109,6 +109,9 @@ def build(game, r, variant):
         m.misc = {b"PLAYER": b"1"} if hasattr(m, "misc") else None
     if game == "sm":
         m.chart_type = "dance-single"
+    if variant == 2:
+        # history: a rate change by 1 (values unchanged, integer columns widened to float by the stack write-back)
+        m = m.rate(1.0)
     if variant == 1:
         # non-default labels / unsorted rows
         for name in list(m.objs):
@@ -222,6 +225,7 @@ def exec_ops(scn):
 def from_list_record(x):
     """A timed-list record of the C16 driver as a frame record."""
     return {"id": x["id"], "op": x["op"], "cls": x["cls"], "exc": "" if not x["exc"] or x["op"] == "get_oob" else "",
-            "copy": x["op"] in ("deepcopy", "move_start", "move_end", "append"),
+            # results that are fresh frames on the unchanged tree (boolean-mask filters, sorts, concat): editing them must not reach the input
+            "copy": x["op"] in ("deepcopy", "move_start", "move_end", "append", "after", "before", "between", "sorted", "mask"),
             "before": {"rows": x["pre"], "meta": x["meta_pre"]}, "after": {"rows": x["pre_after"], "meta": x["meta_after"]},
             "poked": {"rows": x["pre"], "meta": x["meta_pre"]} if not x.get("shared") else {"shared": 1}}
